@@ -27,6 +27,9 @@ static const struct { uint16_t suite; unsigned ver; bool cauth; int ckey; bool a
 	{ 0xCCA8, 0x0303, false, 0, true, L_MONO }, { 0xC004, 0x0302, false, 0, false, L_MONO }, { 0x000A, 0x0302, false, 0, false, L_BIDI },
 	{ 0xC02F, 0x0303, true, K_RSA, false, L_MONO }, { 0xC02B, 0x0303, true, K_EC, true, L_SPLIT }, { 0x009C, 0x0303, false, 0, true, L_SPLIT },
 	{ 0xC014, 0x0301, true, K_RSA, false, L_MONO },
+	// added with the third session: both CCM tag lengths, CBC with SHA-256 / SHA-384 MACs, AES-256-GCM
+	{ 0xC09C, 0x0303, false, 0, false, L_MONO }, { 0xC0AE, 0x0303, false, 0, false, L_SPLIT }, { 0xC0AD, 0x0303, false, 0, false, L_MONO },
+	{ 0xC028, 0x0303, false, 0, false, L_MONO }, { 0x003C, 0x0303, false, 0, false, L_SPLIT }, { 0x009D, 0x0303, false, 0, false, L_MONO },
 };
 static const unsigned TLS_NCFG = sizeof TLS_CFG / sizeof TLS_CFG[0];
 
@@ -436,7 +439,7 @@ static void fam_tls_post(Tape &t, bool client)
 			md += fmt(" raw%zu", n);
 		} else if (k == 11) {
 			// header announcing a length at / beyond the limits, followed by filler
-			size_t n = t.pick<size_t>({ 0, 16384 + 300, 16384 + 325, 16384 + 326, 16384 + 2048, 16384 + 2049, 18000, 32768, 65535 });
+			size_t n = t.pick<size_t>({ 0, 16384 + 300, 16384 + 325, 16384 + 326, 16384 + 2048, 16384 + 2049, 18000, 32768, 65535, 8, 16, 17, 23, 24, 31, 32, 47, 48 });
 			if (t.flag()) n = (e->eng->ibuf_len + 3 - t.u8() % 12) & 0xFFFF;   // around what the victim's own input buffer can hold
 			wire = { (uint8_t)t.pick<unsigned>({ 23, 22, 21 }), (uint8_t)(ver >> 8), (uint8_t)ver, (uint8_t)(n >> 8), (uint8_t)n };
 			wire.resize(5 + std::min<size_t>(n, 20000), 0x17);
@@ -554,6 +557,25 @@ static void tls_boundary_case(unsigned kind, size_t a, size_t b, const std::stri
 		}
 		return;
 	}
+	if (kind == 24) {
+		// after the handshake: a garbage record of every small length (below, at and above the overhead of the
+		// protection in force: explicit IV / nonce, MAC / tag, padding), a = cfg * 2 + victim, b = length
+		bool client = (a & 1) != 0;
+		PostLab *L = post_lab((unsigned)(a >> 1), client, 0);
+		VF_CHECK(L->ok, "harness: post-key lab failed");
+		if (client) snap_restore(*L->c, L->snap); else snap_restore(*L->s, L->snap);
+		BearEndpoint *e = L->victim();
+		unsigned ver = TLS_CFG[(a >> 1) % TLS_NCFG].ver;
+		Bytes wire = { 23, (uint8_t)(ver >> 8), (uint8_t)ver, (uint8_t)(b >> 8), (uint8_t)b };
+		wire.resize(5 + b, 0x5C);
+		wire.resize(wire.size() + 64, 0x17);
+		begin_work("tls-post", 8000000, 800, wire.size());
+		DriveResult r = drive(t0, e, wire, desc);
+		end_work();
+		VF_CHECK(r.closed && r.err != 0, "TLS %s (%s): a %zu-byte garbage record left the engine open (state %#x)", L->desc.c_str(), desc.c_str(), b, e->state());
+		account("boundary-tls-short-record", fmt("err%d", r.err), true, desc);
+		return;
+	}
 	if (kind == 23) {
 		// after the handshake: a record header announcing a length around the capacity of the
 		// victim's (small) input buffer, then filler (a = cfg * 2 + victim, b = 16 + delta)
@@ -630,4 +652,5 @@ static void tls_boundary_enum(const std::function<void(unsigned, size_t, size_t)
 	for (size_t b : around({ 0, 16, 32, 300 }, 2)) emit(21, 18, b);
 	for (size_t a = 0; a < 5; a++) for (size_t b = 0; b < 3; b++) emit(22, a, b);
 	for (size_t a = 0; a < 2 * TLS_NCFG; a++) for (size_t b = 4; b <= 20; b++) emit(23, a, b);
+	for (size_t a = 0; a < 2 * TLS_NCFG; a++) for (size_t b = 0; b <= 80; b++) emit(24, a, b);
 }
